@@ -40,7 +40,7 @@ def _gen(rng, depth, leaves, allow_concat=True):
         ncls = rng.randint(1, 5)
         tag = f"L{len(leaves)}"
         spec = {"k": "leaf", "n": n, "tag": tag, "classes": [rng.randrange(ncls) for _ in range(n)], "ncls": ncls,
-                "getall": rng.choice(["list", "list", "ndarray", "tensor"])}
+                "getall": rng.choice(["list", "list", "ndarray", "tensor"]), "alias": rng.random() < 0.5}
         leaves.append(spec)
         return spec
     k = rng.choice(KINDS if allow_concat else [x for x in KINDS if x != "concat"])
@@ -65,6 +65,7 @@ def gen_cases(run):
 class Built:
     def __init__(self):
         self.leaves = {}
+        self.leaf_specs = {}
         self.log = []
         self.remaps = 0
         self.rejected = None
@@ -80,7 +81,9 @@ def _build(run, spec, B, under_concat=False):
     k = spec["k"]
     if k == "leaf":
         kind = "list" if under_concat else spec["getall"]  # KDConcatDataset asserts list results of its direct parts
-        ds = Leaf(spec["n"], tag=spec["tag"], classes=spec["classes"], n_classes=spec["ncls"], getall_kind=kind, log=B.log)
+        ds = Leaf(spec["n"], tag=spec["tag"], classes=spec["classes"], n_classes=spec["ncls"], getall_kind=kind, log=B.log,
+                  alias_getall=bool(spec.get("alias")))
+        B.leaf_specs[spec["tag"]] = spec
         B.leaves[spec["tag"]] = ds
         return ds, [((), spec["tag"], i, spec["classes"][i]) for i in range(spec["n"])], [ds]
     if k == "concat":
@@ -260,6 +263,18 @@ def run_case(run, spec):
                 run.violation("getall-helper-value", f"utils.{fn.__name__}(stack)={_short(res)} but per-sample labels are {_short(want)}")
                 return
             run.count("getall_checked")
+        # bulk reads are repeatable and never modify the leaves' own label storage (leaves may hand out their internal list)
+        ok, bulk2 = call_real(run, lambda: ds.getall_class(), what="getall_class() (second read)")
+        if not ok:
+            return
+        if not loose_equal(bulk2, want) or len(bulk2) != n:
+            run.violation("getall-not-repeatable", f"second getall_class()={_short(bulk2)} differs from the per-sample labels {_short(want)} (first read was correct)")
+            return
+        for tag, leaf in B.leaves.items():
+            if list(leaf.classes) != list(B.leaf_specs[tag]["classes"]):
+                run.violation("getall-modifies-leaf-labels", f"bulk reads changed the label storage of leaf {tag}: {_short(leaf.classes)} vs {_short(B.leaf_specs[tag]['classes'])}")
+                return
+        run.count("getall_checked")
         # slow path of getall(): an item without bulk accessor is loaded sample-wise
         ok, res = call_real(run, lambda: gat.getall(ds, item="x"), what="utils.getall(stack,'x')")
         if not ok:
